@@ -1,3 +1,4 @@
+import Noodles.Props.C20More
 import Noodles.Util.Detect
 import Noodles.Util.DetectProof
 /-!
